@@ -48,70 +48,8 @@ def exh_visitor(ix, rep, cls, label, rule='R-EXH'):
     return n
 
 
-def check(ix, rep):
-    hcls = ix.find_class('rtamt.pastifier.stl.horizon', 'StlHorizon')
-    pcls = ix.find_class('rtamt.pastifier.stl.pastifier', 'StlPastifier')
-    n1 = exh_visitor(ix, rep, hcls, 'StlHorizon')
-    n2 = exh_visitor(ix, rep, pcls, 'StlPastifier')
-    rep.floor('horizon + pastifier dispatch cells', n1 + n2, 76)
-    nh, deltas = pastify.check_horizon(ix, rep, hcls, pcls)
-    nd, consumed = pastify.check_delay(ix, rep, pcls)
-    # the operators the rewrite produces (once, historically, since, precedes [a,b]) compute the windows the rewrite relies on
-    from sa.rules import windowrule
-    from sa import model as M_
-    on = {m.kind: m for m in M_.standard_monitors(ix)}['discrete-online']
-    nw, _w = windowrule.check_online(ix, rep, on, which=('R-WINDOW',))
-    rep.floor('bounded online operations whose window was derived', nw, 4)
-    # the rewrite emits the same delayed sub-formula several times (`once[k,k](phi)` under one name): the online monitor's once-per-update memo decides
-    # whether its shared operator is stepped once
-    from sa.rules import step as _step
-    _step.check_step(ix, rep, on)
-    nbe = _step.check_buffer_every_path(ix, rep, M_.operation_classes(ix, 'discrete'), 'discrete-online')
-    rep.floor('ring buffers of the operations the rewrite produces', nbe, 4)
-    from sa.rules import units as _u
-    npa = _u.check_period_reaches_ast(ix, rep)
-    rep.floor('sampling settings the pastifier reads from the ast', npa, 2)
-    npn = unitflow.check_period_normalisers(ix, rep)
-    rep.floor('period normalisers', npn, 1)
-    nhd = pastify.check_horizon_dimension(ix, rep, hcls)
-    rep.floor('next handlers checked for the unit of their look-ahead', nhd, 2)
-    nrt = pastify.check_roundtrip(ix, rep, pcls)
-    rep.floor('attributes re-fed to a node constructor by the pastifier', nrt, 3)
-    no = pastify.check_origin(ix, rep, pcls)
-    rep.floor('past operators checked for samples before the origin', no, 10)
-    rep.floor('horizon handlers interpreted', nh, 33)
-    rep.floor('pastifier handlers interpreted', nd, 33)
-    # agreement: what the horizon adds for X is what the pastifier consumes for X
-    for name in sorted(set(deltas) & set(consumed)):
-        if deltas[name].same(consumed[name]):
-            rep.ok('R-HORIZON', hcls.module.rel, 'StlHorizon~StlPastifier', 'agree:%s' % name, 'added = consumed = %r' % consumed[name])
-        else:
-            rep.fail('R-HORIZON', pcls.module.rel, 'StlHorizon~StlPastifier', 'agree:%s' % name,
-                     'the horizon visitor adds %r for %s but the pastifier consumes %r before descending: operands are delayed by the wrong amount'
-                     % (deltas[name], name, consumed[name]))
-    # units
-    n = 0
-    for cls in (pcls, hcls):
-        d = D.dispatch_of(ix, cls)
-        for nc in D.node_classes(ix):
-            if not nc.name.startswith('Timed'):
-                continue
-            meth, _ = d.method_for(nc, ix)
-            cat, info, f = D.classify(ix, cls, meth)
-            if cat == 'compute':
-                unitflow.check_handler(ix, rep, cls, f, '%s:%s' % (cls.name, nc.name))
-                n += 1
-    rep.floor('timed handlers checked for unit flow', n, 14)
-    # the normalising helper converts each bound with its own unit (dimension rule shared with C08)
-    from sa.rules import units
-    norms = {}
-    for cls in (pcls, hcls):
-        for f_ in cls.methods.values():
-            for nf in unitflow.normalisers_used(ix, cls, f_):
-                norms[id(nf)] = nf
-    for nf in norms.values():
-        units.check_transformer(ix, rep, None, None, 'dense', func=nf)
-    store.check_pastifier_remap(ix, rep)
+def check_pastify_driver(ix, rep, pcls, hcls):
+    """pastify(): every assertion rewritten with the look-ahead computed for that assertion; the rewritten specs replace ast.specs in order"""
     # pastify(): horizon of every spec computed before rewriting; specs replaced in order; result has no future operator
     pf = pcls.methods.get('pastify')
     rep.analysed(pf)
@@ -212,6 +150,74 @@ def check(ix, rep):
                              'that assertion: an assertion is delayed by something other than its own look-ahead -- e.g. a sub-specification with a longer look-ahead that the '
                              'output does not use delays the output too, and update i no longer returns the sample i - H(out)' % ast.unparse(c.args[1])[:60], c.lineno)
     rep.floor('rewrite calls of the pastify driver', nown, 1)
+    return nown
+
+
+def check(ix, rep):
+    hcls = ix.find_class('rtamt.pastifier.stl.horizon', 'StlHorizon')
+    pcls = ix.find_class('rtamt.pastifier.stl.pastifier', 'StlPastifier')
+    n1 = exh_visitor(ix, rep, hcls, 'StlHorizon')
+    n2 = exh_visitor(ix, rep, pcls, 'StlPastifier')
+    rep.floor('horizon + pastifier dispatch cells', n1 + n2, 76)
+    nh, deltas = pastify.check_horizon(ix, rep, hcls, pcls)
+    nd, consumed = pastify.check_delay(ix, rep, pcls)
+    # the operators the rewrite produces (once, historically, since, precedes [a,b]) compute the windows the rewrite relies on
+    from sa.rules import windowrule
+    from sa import model as M_
+    on = {m.kind: m for m in M_.standard_monitors(ix)}['discrete-online']
+    nw, _w = windowrule.check_online(ix, rep, on, which=('R-WINDOW',))
+    rep.floor('bounded online operations whose window was derived', nw, 4)
+    # the rewrite emits the same delayed sub-formula several times (`once[k,k](phi)` under one name): the online monitor's once-per-update memo decides
+    # whether its shared operator is stepped once
+    from sa.rules import step as _step
+    _step.check_step(ix, rep, on)
+    nbe = _step.check_buffer_every_path(ix, rep, M_.operation_classes(ix, 'discrete'), 'discrete-online')
+    rep.floor('ring buffers of the operations the rewrite produces', nbe, 4)
+    from sa.rules import units as _u
+    npa = _u.check_period_reaches_ast(ix, rep)
+    rep.floor('sampling settings the pastifier reads from the ast', npa, 2)
+    npn = unitflow.check_period_normalisers(ix, rep)
+    rep.floor('period normalisers', npn, 1)
+    nhd = pastify.check_horizon_dimension(ix, rep, hcls)
+    rep.floor('next handlers checked for the unit of their look-ahead', nhd, 2)
+    nrt = pastify.check_roundtrip(ix, rep, pcls)
+    rep.floor('attributes re-fed to a node constructor by the pastifier', nrt, 3)
+    no = pastify.check_origin(ix, rep, pcls)
+    rep.floor('past operators checked for samples before the origin', no, 10)
+    rep.floor('horizon handlers interpreted', nh, 33)
+    rep.floor('pastifier handlers interpreted', nd, 33)
+    # agreement: what the horizon adds for X is what the pastifier consumes for X
+    for name in sorted(set(deltas) & set(consumed)):
+        if deltas[name].same(consumed[name]):
+            rep.ok('R-HORIZON', hcls.module.rel, 'StlHorizon~StlPastifier', 'agree:%s' % name, 'added = consumed = %r' % consumed[name])
+        else:
+            rep.fail('R-HORIZON', pcls.module.rel, 'StlHorizon~StlPastifier', 'agree:%s' % name,
+                     'the horizon visitor adds %r for %s but the pastifier consumes %r before descending: operands are delayed by the wrong amount'
+                     % (deltas[name], name, consumed[name]))
+    # units
+    n = 0
+    for cls in (pcls, hcls):
+        d = D.dispatch_of(ix, cls)
+        for nc in D.node_classes(ix):
+            if not nc.name.startswith('Timed'):
+                continue
+            meth, _ = d.method_for(nc, ix)
+            cat, info, f = D.classify(ix, cls, meth)
+            if cat == 'compute':
+                unitflow.check_handler(ix, rep, cls, f, '%s:%s' % (cls.name, nc.name))
+                n += 1
+    rep.floor('timed handlers checked for unit flow', n, 14)
+    # the normalising helper converts each bound with its own unit (dimension rule shared with C08)
+    from sa.rules import units
+    norms = {}
+    for cls in (pcls, hcls):
+        for f_ in cls.methods.values():
+            for nf in unitflow.normalisers_used(ix, cls, f_):
+                norms[id(nf)] = nf
+    for nf in norms.values():
+        units.check_transformer(ix, rep, None, None, 'dense', func=nf)
+    store.check_pastifier_remap(ix, rep)
+    check_pastify_driver(ix, rep, pcls, hcls)
     # the rewritten tree contains no future operator: node classes the pastifier can build
     pb = M.pastifier_builds(ix)
     fut = sorted(set(pb) & {'Eventually', 'Always', 'Until', 'TimedEventually', 'TimedAlways', 'TimedUntil', 'Next', 'StrongNext'})
